@@ -2,7 +2,8 @@ CONFIG = {
     "manifest": {
         "text": "Theorems (Qed, closed under the global context) over every cluster size, replication factor, ownership layout with >= 1 owner per shard, "
                 "coordinating node, random oracle and node behaviour (function node x shard set x call index -> serve | refuse | error reply | cut): "
-                "mapShards yields a partition of the query's shards onto owners with local shards local; the retry loop of a remote shard group ends within "
+                "mapShards yields a partition of the query's shards onto owners with local shards local, and for statements with several sources (same db/rp repeated, subqueries, several retention policies) "
+                "every source is mapped exactly once (its entries are the image of one run of the single-source mapper); the retry loop of a remote shard group ends within "
                 "#owner nodes + 1 rounds, each failed round growing the dirty set; its result is a partition of the group's shards read from answering "
                 "owners or an error, and an error whenever a shard has no answering owner; an error reply never yields a part; whole operations "
                 "(CreateIterator / FieldDimensions / IteratorCost sequences on one mapping) return the single-node answer or an error. The model is diffed on every run "
@@ -14,21 +15,21 @@ CONFIG = {
     },
     "harness": "h_c05",
     "level": "proof",
-    "extra_proof_files": ["ProofsA", "ProofsB"],
+    "extra_proof_files": ["ProofsA", "ProofsB", "ProofsC"],
     "n": {"quick": 1000, "thorough": 12000},
     "shard": 150,
     "harness_timeout": {"quick": 420, "thorough": 3000},
     "rule": "designed cases (every MetaExecutor read call x {serve, error reply, refused dial, cut reply}; the Coq witnesses on a 3-node cluster x down sets x fault seeds; "
-            "a 4-node family with a retry round in which one node fails and one succeeds before a successful round) "
+            "a 4-node family with a retry round in which one node fails and one succeeds before a successful round; multi-source statements x coordinators owning none/some/all shards) "
             "then seeded generation: worlds (2-4 nodes, 5 in thorough; 1-3 shard groups x 1-3 shards; ring placement with a replication factor or arbitrary owner subsets/orders; 0-3 points per shard) "
-            "x per world 40 queries (coordinator = each node, time range = subset of groups possibly trimmed, each other node down with p=0.2, per-request fault function "
+            "x per world 40 queries (statement = 1 source (45%) or 2-3 sources over measurements m/m1/m2 of one or two retention policies, 20% wrapped in a subquery; coordinator uniformly, or one owning no shard (30%), or one needing remote shards, time range = subset of groups possibly trimmed, each other node down with p=0.2, per-request fault function "
             "hash(seed,node,shard set,call index) with p in {0,25,50,80}% choosing error reply / cut inside the response / cut after j points + b bytes, 1-3 operations from "
             "CreateIterator, FieldDimensions, IteratorCost on the same mapping); distinct = distinct input description; non-trivial = at least one remote shard group",
     "trusted_base": [
         "C05: node behaviour enters the model as the table of outcomes the fault injector applied to the requests that reached each node (plus the set of refusing nodes); the injector is part of the harness",
         "C05: the random oracle of mapShards is read off the observed mapping (index of the chosen owner); the model must reproduce the whole mapping from it",
         "C05: row content is modelled as a set of row ids per shard (unique timestamps, one series); merge order, field typing and aggregation are the real code's and only compared through the single-store reference",
-        "C05: opt.NodeID > 0, MapType (no error channel), subqueries/multiple sources, ReadFilter/ReadGroup streaming (only their reply handling) are outside the model",
+        "C05: opt.NodeID > 0, MapType (no error channel), ReadFilter/ReadGroup streaming (only their reply handling) are outside the model; all measurements hold identical data, so sources are distinguished by (db, rp) key only",
     ],
     "modelled": "coordinator/shard_mapper.go mapShards (NodeID = 0 branch), shuffleShards, the retry loops of remoteShardGroup.{CreateIterator,FieldDimensions,IteratorCost} (same shape as ReadFilter/ReadGroup), "
                 "ClusterShardMapping fan-out/merge, MetaExecutor reply handling (client_response), ReaderIterator end-of-stream rule are modelled (theories/C05/Model.v); "
@@ -65,7 +66,7 @@ def classify(case):
         if not droppable:
             return None
         # the mapping itself must be a partition of the metadata view: a bad mapping is never this finding
-        ids = sorted(i for e in obs["mapping"] for i in e[1])
+        ids = sorted(i for sm in obs["mapping"] for i in (sm["local"] + [x for g in sm["remote"] for x in g["ids"]]))
         if ids != sorted(obs["view"]) or len(set(ids)) != len(ids):
             return None
         short = False
